@@ -105,6 +105,12 @@ Definition step (st : slots) (o : zop) : slots * list Z :=
                | Ok f' => (put_slot st slot f', [1])
                | Err => (st0, ERR)
                | Stuck => (st0, PANIC) end
+  | 18 => (* probe: a clone of the filter inserts the item and is then asked for it (the filter itself is
+             unchanged).  The answer is 1 by the no-false-negative theorem (Props/C09.v); the digests are not
+             needed, so filters with thousands of hash functions cost the model nothing. *)
+          match get_slot st slot with
+          | Some f => (st, [1])
+          | None => (st, EMPTY) end
   | _ => (st, PANIC)
   end.
 
@@ -255,6 +261,9 @@ Fixpoint prop_from (chk : sp -> list Z -> bool) (strict : bool) (st : ospec) (op
               else if strict && negb (list_eqb Z.eqb ob ALLOC)
                    then match image_spec (skipn 1 a) with Some _ => false | None => prop_from chk strict (op_ st slot None) r obr end
               else prop_from chk strict (op_ st slot None) r obr
+      | 18 => match og st slot with
+              | Some s => list_eqb Z.eqb ob [1] && prop_from chk strict st r obr      (* no false negatives *)
+              | None => prop_from chk strict st r obr end
       | 15 => match og st slot with
               | Some s => (nth 0 ob (-1) =? count_spec s (skipn 2 a) 0) && (nth 0 ob (-1) <=? nth 1 a 0) && prop_from chk strict st r obr
               | None => prop_from chk strict st r obr end
@@ -277,8 +286,15 @@ Definition prop_roundtrip : case -> bool := twin_oracle 16 [0; 11; 14; 17].
    has the size fixed by the configuration *)
 Definition prop_layout : case -> bool := prop_with layout_ok false.
 
-(* C14 / C17 *)
-Definition no_panic : case -> bool := no_panic_oracle.
+(* C14 / C17: no operation panics or allocates out of proportion, and every value the crate holds
+   (in particular one it accepted from untrusted bytes) can be re-serialized and read back *)
+Fixpoint usable_from (ops : list zop) (obs : list (list Z)) : bool :=
+  match ops, obs with
+  | (code, _) :: r, ob :: obr =>
+      negb (((code =? 10) || (code =? 16)) && list_eqb Z.eqb ob ERR) && usable_from r obr
+  | _, _ => true
+  end.
+Definition no_panic (c : case) : bool := no_panic_oracle c && usable_from (c_ops c) (c_obs c).
 
 (* C13: every image the layout specification accepts is accepted and denotes the encoded state *)
 Definition prop_foreign : case -> bool := prop_with layout_ok true.
